@@ -92,9 +92,12 @@ class Ocp(Stage):
                 self._var_augmented = augmented
                 augmented._placeholders = self._placeholders
                 
-                return self._augmented._transcribed
+                augmented._transcribe()
+                return augmented
         else:
-            self._transcribe()
+            # An augmented copy is transcribed once, right after its creation above.
+            # An outdated copy (e.g. reached through an earlier solution object)
+            # must not transcribe itself again and pass for the current problem.
             return self
         
     def transcribe(self,**kwargs):
